@@ -21,7 +21,21 @@ for name in sorted(os.listdir(os.path.join(HERE, 'seeded'))):
     fps = (res.get(tier) or {}).get('fingerprints', []) if tier != '-' else []
     fp = '; '.join(f.split(':', 1)[1] if ':' in f else f for f in fps[:2])[:120]
     note = m.get('note', '')
-    rows.append(f"| {name} | {title.replace('|', '/')} | {'yes (' + tier + ')' if m.get('detected') else 'NO'} | {fp.replace('|', '/')} | {note} |")
+    if tier != '-':
+        det = 'yes (' + tier + ')'
+    elif m.get('detected_by_other_check'):
+        o = m['detected_by_other_check']
+        det = f"by {o['check']} ({o.get('tier', 'quick')})"
+        fp = '; '.join(o.get('fingerprints', [])[:2])
+    elif m.get('neutralised_by_fix'):
+        nf = m['neutralised_by_fix']
+        det = 'neutralised by fix ' + (nf['fix'].split()[0] if isinstance(nf, dict) else str(nf).split()[0])
+    else:
+        det = 'NO'
+    if m.get('also_detected_by'):
+        o = m['also_detected_by']
+        note = (note + ' ' if note else '') + f"also detected by {o['check']} ({'; '.join(o.get('fingerprints', [])[:1])})"
+    rows.append(f"| {name} | {title.replace('|', '/')} | {det} | {fp.replace('|', '/')} | {note} |")
 table = ['| Seeded change | What it does (sub-agent\'s title) | Detected | By (first fingerprints) | Note |', '|---|---|---|---|---|'] + rows
 p = os.path.join(HERE, 'DESIGN.md')
 s = open(p).read()
